@@ -128,6 +128,10 @@ func C06(ctx *core.Ctx) {
 	ctx.Rule("C06.R2", "bounded lock hold: every critical section of the registry mutex contains no blocking op, no call that can reach one in package frugal, and only whitelisted pure external calls", 3)
 	ctx.Rule("C06.R3", "every result channel handed to fRegistry.Register has constant capacity ≥ 1", 2)
 	ctx.Rule("C06.R4", "lock balance: every function acquiring the registry mutex releases it on every exit", 3)
+	ctx.Rule("C06.R6", "abandoned or refused requests do not disturb others: registration pairing in every Request (a failed Register is neither used nor undone; Unregister of the same context on every exit)", 4)
+	for _, req := range r.Impl("FTransport", "Request") {
+		c01Request(ctx, r, req, "C06.R6", "")
+	}
 	ctx.Rule("C06.R5", "the reader keeps reading: a frame the registry cannot deliver is discarded without an error wherever a reader loop ends on an error of Execute", 2)
 	{
 		regImpl := map[*ssa.Function]string{}
@@ -148,6 +152,8 @@ func C06(ctx *core.Ctx) {
 		}
 	}
 	lockBalance(ctx, r, "C06.R4", "fRegistryImpl")
+	// a read lock is not reentrant either: a second RLock queues behind a writer that waits for the first
+	noDoubleAcquire(ctx, r, "C06.R4", "fRegistryImpl")
 	ctx.Assume("(*nats.Conn).Publish/PublishRequest, logrus logging and thrift constructors do not wait for the peer")
 
 	bi := ssax.ComputeBlocking(r.Fns, r.Resolve)
